@@ -14,8 +14,9 @@ if [ ! -d $W ]; then /verif/tools/mkwt.sh verify >/dev/null || exit 2; fi
 git -C $W checkout -q --detach $(git -C /repo rev-parse HEAD) 2>/dev/null; git -C $W checkout -q -- . ; rm -f $W/tests/seeded_demo.rs
 cp "$src/tests/seeded_demo.rs" $W/tests/seeded_demo.rs 2>/dev/null || cp "$src/seeded_demo.rs" $W/tests/seeded_demo.rs
 cd $W
+FEAT=""; grep -q 'feature = "serde"' tests/seeded_demo.rs && FEAT="--features serde"
 echo "== [1] demo on the unchanged tree"
-cargo test --offline --test seeded_demo 2>&1 | grep -E "^test result|error" | head -3
+cargo test --offline $FEAT --test seeded_demo 2>&1 | grep -E "^test result|error" | head -3
 d0=${PIPESTATUS[0]}
 echo "== [2] apply patch"
 git apply "$src/patch.diff" 2>/dev/null || git apply --3way "$src/patch.diff" || { echo "PATCH-DOES-NOT-APPLY"; cd /; git -C /repo worktree remove --force $W; exit 3; }
@@ -24,7 +25,7 @@ echo "== [3] pinned suite + doc tests with the change"
 cargo nextest run --workspace --no-fail-fast --offline -E 'not binary(seeded_demo)' 2>&1 | grep -E "Summary|FAIL" | head -5
 cargo test --doc --offline 2>&1 | grep -E "^test result" | head -2
 echo "== [4] demo with the change (must fail)"
-cargo test --offline --test seeded_demo 2>&1 | grep -E "^test result|error\[" | head -3
+cargo test --offline $FEAT --test seeded_demo 2>&1 | grep -E "^test result|error\[" | head -3
 git diff -- src > /tmp/wt/verify-$id.patch
 git checkout -q -- . ; rm -f tests/seeded_demo.rs
 cd /
